@@ -498,7 +498,9 @@ def tt_ind2sub(
     """
     if idx.size == 0:
         return np.empty(shape=(0, len(shape)), dtype=int)
-    idx[idx < 0] += prod(shape)  # Handle negative indexing as simply as possible
+    # Handle negative indexing as simply as possible (without writing into the
+    # caller's index array)
+    idx = np.where(idx < 0, idx + prod(shape), idx)
     return np.array(np.unravel_index(idx, shape, order=order)).transpose()
 
 
